@@ -349,4 +349,25 @@ for T in [{', '.join(seq)}]:
 return ok
 """
         out.append(mk_case(f"c01.shared_data.{sid}", [("a", "int"), ("u1", "Union[bool, None, str]")], body, pre=[f"I64(a) and BU({L}, u1)"]))
+    # documents that are instances of dict / list subclasses (OrderedDict, defaultdict, a user list subclass): items, keys and
+    # indices are those of the mapping / list
+    for cid, T, doc in [
+        ("value.gt.odict", "leaf('value', None, 'greater_than', a)", "collections.OrderedDict([('x', u1), ('y', 0), (1, [u1]), (None, 'ab')])"),
+        ("key.eq.ddict", "leaf('key', None, 'equal_to', 'y')", "collections.defaultdict(list, {'x': u1, 'y': 0, 1: [u1]})"),
+        ("key.len.odict", "leaf('key', 'length', 'less_than', a)", "collections.OrderedDict([('x', u1), ('yy', 0), ('', 2), (3, 4)])"),
+        ("value.len.seq", "leaf('value', 'length', 'equal_to', a)", "Seq([u1, 'ab', [1, 2], Seq([u1]), collections.OrderedDict(k=1)])"),
+        ("index.lt.seq", "leaf('index', None, 'less_than', a)", "Seq([u1, 0, 'a'])"),
+        ("value.keys.nested", "leaf('value', None, 'keys_contain', 'k')", "[collections.OrderedDict(k=u1), collections.defaultdict(int, {'j': 1}), Seq(['k']), {'k': 0}]"),
+        ("value.dtype.nested", "leaf('value', 'dtype', 'in_', [dict, list])", "[collections.OrderedDict(k=u1), Seq([1]), {}, [], u1]"),
+        ("value.isinstance.nested", "leaf('value', None, 'is_instance', dict, list)", "[collections.OrderedDict(k=u1), Seq([1]), {}, [], u1]"),
+    ]:
+        body = f"""
+import collections
+class Seq(list):
+    pass
+T = {T}
+doc = {doc}
+{ASSERT}
+"""
+        out.append(mk_case(f"c01.subclass_docs.{cid}", [("a", "int"), ("u1", U)], body, pre=[f"I64(a) and BU({L}, u1)"]))
     return out
